@@ -78,7 +78,7 @@ def drive(ctx, binp, args, out):
 
 def run_lc(ctx, prop, emit_cfgs, mc_cfgs, driver_args, clean_cfgs=(), what="", scripted=0, extra_runs=()):
     binp = c.build_harness("lc")
-    stats = {"replayed": 0, "fast_path": 0, "slow_path": 0, "drift": 0, "panics": 0, "cases_traced": 0, "lines": 0}
+    stats = {"replayed": 0, "fast_path": 0, "slow_path": 0, "drift": 0, "panics": 0, "cases_traced": 0, "lines": 0, "slow_path_not_recorded": 0}
     traces = []
     first_case = 0
     drift_samples = []
@@ -96,6 +96,7 @@ def run_lc(ctx, prop, emit_cfgs, mc_cfgs, driver_args, clean_cfgs=(), what="", s
         first_case = st["cases_traced"]
         for k in ("replayed", "fast_path", "slow_path", "drift", "panics"):
             stats[k] += st[k]
+        stats["slow_path_not_recorded"] += st.get("slow_path_not_recorded", 0)
         stats["lines"] += st["lines"]
         drift_samples += st.get("drift_samples", [])
         traces.append(out)
@@ -108,6 +109,7 @@ def run_lc(ctx, prop, emit_cfgs, mc_cfgs, driver_args, clean_cfgs=(), what="", s
         first_case = st["cases_traced"]
         for k in ("replayed", "fast_path", "slow_path", "drift", "panics"):
             stats[k] += st[k]
+        stats["slow_path_not_recorded"] += st.get("slow_path_not_recorded", 0)
         stats["lines"] += st["lines"]
         drift_samples += st.get("drift_samples", [])
         traces.append(out)
@@ -139,7 +141,7 @@ def run_lc(ctx, prop, emit_cfgs, mc_cfgs, driver_args, clean_cfgs=(), what="", s
     ctx.add_tlc("trace-validation", v.res)
     cases = c.split_cases(trace)
     ncases = len(cases)
-    ctx.evaluations = stats["replayed"] + (ncases - stats["slow_path"])
+    ctx.evaluations = stats["replayed"] - stats["slow_path_not_recorded"] + (ncases - stats["slow_path"])
     ctx.traces_validated = ncases - len(v.violations)
     # distinct non-trivial: distinct input streams (by content) that contain >= 2 lifecycles in the final table or a panic
     seen = set()
